@@ -153,7 +153,7 @@ def _run_one(binp, case, timeout_s):
             shutil.rmtree(d, ignore_errors=True)
 
 
-def run_cases(binp, cases, timeout_s=40, jobs=8):
+def run_cases(binp, cases, timeout_s=40, jobs=8, confirm=True):
     """One process per case, watchdog `timeout_s`. Returns {id: obs list}; a case that outlives the
     watchdog ends in "diverged" (re-run once alone with three times the budget before it counts),
     one that dies in "aborted:<signal>"."""
@@ -164,7 +164,7 @@ def run_cases(binp, cases, timeout_s=40, jobs=8):
         for c, r in zip(cases, ex.map(lambda c: _run_one(binp, c, timeout_s), cases)):
             res[c["id"]] = r
     for c in cases:
-        if "diverged" in [x for x in res[c["id"]] if isinstance(x, str)]:
+        if confirm and "diverged" in [x for x in res[c["id"]] if isinstance(x, str)]:
             res[c["id"]] = _run_one(binp, c, timeout_s * 3)
     return res
 
@@ -185,6 +185,11 @@ def install():
         if area != AREA:
             return orig(binp, area, cases, **kw)
         b, _ = build()
-        return run_cases(b, cases, timeout_s=max(10, int(kw.get("timeout_ms", 40000)) // 1000))
+        res = {}
+        for c in cases:
+            w = c.get("watchdog_s")
+            res.update(run_cases(b, [c], timeout_s=int(w) if w else max(10, int(kw.get("timeout_ms", 40000)) // 1000),
+                                 confirm=not w))
+        return res
 
     core.run_harness = run_harness
